@@ -36,20 +36,30 @@ Definition is_kind_in (w : wid) : bool := match kind_of nl w with KInput => true
 
 Definition all1 (n : net) : bool := forallb w1 (nargs n) && w1 (ndest n).
 
+(* written with `if` (not && / ||) so that vm_compute does not evaluate the
+   quadratic producer/user scans for the ordinary 1-bit gates *)
 Definition net_shape (n : net) : bool :=
   match nop n with
   | OpNot | OpAnd | OpOr | OpXor | OpNand | OpReg => all1 n
-  | OpW => all1 n || (merge && is_kind_out (ndest n) && produced_by is_concat (arg n 0))
+  | OpW => if all1 n then true
+           else if merge then (if is_kind_out (ndest n) then produced_by is_concat (arg n 0) else false)
+           else false
   | OpMemRd _ | OpMemWr _ => true
   | OpSelect idx =>
-      Nat.eqb (length idx) 1 && w1 (ndest n)
-      && ((merge && is_kind_in (arg n 0)) || produced_by is_memrd (arg n 0))
+      if Nat.eqb (length idx) 1 then
+        if w1 (ndest n) then
+          if (if merge then is_kind_in (arg n 0) else false) then true
+          else produced_by is_memrd (arg n 0)
+        else false
+      else false
   | OpConcat =>
-      forallb w1 (nargs n)
-      && let us := users (ndest n) in
-         negb (Nat.eqb (length us) 0)
-         && forallb (fun u => is_port (nop u)
-                              || (merge && match nop u with OpW => is_kind_out (ndest u) | _ => false end)) us
+      if forallb w1 (nargs n) then
+        let us := users (ndest n) in
+        if Nat.eqb (length us) 0 then false
+        else forallb (fun u => if is_port (nop u) then true
+                               else if merge then match nop u with OpW => is_kind_out (ndest u) | _ => false end
+                               else false) us
+      else false
   | _ => false
   end.
 
